@@ -26,7 +26,7 @@ func init() {
 		c.Floor("C13.bounds", c.CountRule("C13.bounds"), 40)
 		c.Floor("C13.divzero", c.CountRule("C13.divzero"), 10)
 		c.Floor("C13.okdrop", c.CountRule("C13.okdrop"), 40)
-		c.Floor("C13.assert", c.CountRule("C13.assert"), 15)
+		c.Floor("C13.assert", c.CountRule("C13.assert"), 14)
 		c.Floor("C13.switch", c.CountRule("C13.switch"), 2)
 		c.Floor("C13.panics", c.CountRule("C13.panics"), 2)
 	})
